@@ -121,7 +121,12 @@ def kill_offsets(rng, scn, asked, total, n):
 def run_file(seed_i, tier, part, keep_fail_scn=True):
     scn = gen(seed_i, tier)
     items = pipeline.scenario_items(scn)
-    asked = pipeline.asked_records(scn, items)
+    try:
+        asked = pipeline.asked_records(scn, items)
+    except Exception:
+        # the encoder refuses a well-formed message: C06's business, nothing for C09 to judge
+        part["counters"]["probe:base_file_not_writable"] += 1
+        return
     log = EventLog()
     ctrl = pipeline.write_phase(scn, log=log, items=items)
     final = ctrl.image
